@@ -141,7 +141,9 @@ class Synth:
                 size = [0, 1, self.size + 3, max(self.size - 1, 0)][t.choose(4, "md size")]
                 notes.append("size")
             elif var == 2:
-                dst = ["dst/other.bin", "dst", "dst/sub/x.bin", "nodir/x.bin"][t.choose(4, "md dst")]
+                # incl. a name the host file system cannot store (NUL byte); a name field that is not UTF-8 is outside
+                # what the spacepackets Metadata model (str names) calls well-formed and is not generated (DESIGN 12.2)
+                dst = ["dst/other.bin", "dst", "dst/sub/x.bin", "nodir/x.bin", "dst/nul\x00b.bin"][t.choose(5, "md dst")]
                 notes.append("dstname")
             elif var == 3:
                 src, dst = None, None
@@ -153,7 +155,14 @@ class Synth:
                 ck = [ChecksumType.CRC_32, ChecksumType.CRC_32C, ChecksumType.NULL_CHECKSUM, ChecksumType.MODULAR,
                       ChecksumType.CRC_32_PROXIMITY_1][t.choose(5, "md ck")]
                 notes.append("ck/closure")
-            pdu = MetadataPdu(conf, MetadataParams(closure, ck, size, src, dst))
+            raw_dst = dst if isinstance(dst, bytes) else None
+            pdu = MetadataPdu(conf, MetadataParams(closure, ck, size, src, "x" if raw_dst else dst))
+            if raw_dst:
+                from spacepackets.cfdp.lv import CfdpLv
+
+                pdu._dest_file_name_lv = CfdpLv(value=raw_dst)
+                pdu._calculate_directive_field_len()
+                notes.append("rawname")
         elif kind == "FD":
             if grid_only or not t.chance(1, 3, "fd offgrid"):
                 s = max(c.eff_seg, 1)
